@@ -2,6 +2,8 @@ import PycsepVerif.Proto
 import PycsepVerif.Drive.C18b
 import PycsepVerif.Model.JsonText
 import PycsepVerif.Model.JsonFloat
+import PycsepVerif.Model.EvalProducers
+import PycsepVerif.Model.JsonLimits
 /-!
   Driver ops for the JSON TEXT layer of C18.
     c18_text_render <val>  → the characters `FileSystem.save(val)` writes (`JsonText.saveText pyFloatText`: sort the entries of
@@ -31,5 +33,18 @@ def handle : List String → Option String
   | ["c18_text_floatok", b] => some (match b.toNat? with
       | some b => if floatOkB pyFloatText b then "1" else "0"
       | none => "bad-op")
+  -- c18_text_depth <L> <kind a|o|m> <d> → tag of `loadLimited L` on d nested arrays / objects / mixed: 0 value, 1 invalid, 2 RecursionError
+  | ["c18_text_depth", l, kind, d] => some (match l.toNat?, d.toNat? with
+      | some l, some d =>
+        let openA := List.replicate d '['
+        let closeA := List.replicate d ']'
+        let txt : List Char :=
+          if kind = "a" then openA ++ closeA
+          else if kind = "o" then (List.replicate d ['{', '"', 'k', '"', ':']).flatten ++ ['1'] ++ List.replicate d '}'
+          else (List.replicate d ['[', '{', '"', 'k', '"', ':']).flatten ++ ['0'] ++ (List.replicate d ['}', ']']).flatten
+        toString (loadLimited l pyFloatText txt).tag
+      | _, _ => "bad-op")
+  -- c18_producers → `module.function>Class|…` (Model/EvalProducers.lean)
+  | ["c18_producers"] => some ("|".intercalate (ResultJson.evalProducers.map (fun (k, v) => k ++ ">" ++ v)))
   | _ => none
 end Drive.C18c
